@@ -23,7 +23,10 @@
 //!             slack) and on quadratic growth (≥ 4 GiB at 64 KiB). The largest observed
 //!             ratio is written to the evidence (`pure_max`).
 //! Stage 1 (this file + totality_pure.rs): pure decoders in-process on 16 threads.
-//! Stage 2 (totality_live.rs): live ICE/DTLS/SCTP/RTP/PeerConnection endpoints.
+//! Stage 2 (totality_live.rs): live ICE/DTLS/SCTP/RTP/PeerConnection endpoints: mutation
+//! campaigns and structured floods (long consistent histories that drive bounded structures
+//! to their caps); monitors there: panic, liveness probe, heap growth, largest single block
+//! requested by rustrtc code (alloc_count's per-tag large-block monitor).
 
 use crate::alloc_count::thread_allocated;
 use crate::common::*;
@@ -75,7 +78,7 @@ fn is_rustrtc_src(path: &str) -> bool {
 }
 
 /// First rustrtc frame of a rendered std backtrace (`at <path>:<line>:<col>` lines).
-fn rustrtc_frame_of_backtrace(bt: &str) -> Option<String> {
+pub(crate) fn rustrtc_frame_of_backtrace(bt: &str) -> Option<String> {
     let mut first_fn: Option<String> = None;
     for line in bt.lines() {
         let t = line.trim_start();
@@ -111,6 +114,11 @@ pub fn install_site_hook() {
     ONCE.call_once(|| {
         let prev = std::panic::take_hook();
         std::panic::set_hook(Box::new(move |info| {
+            // what the hooks allocate (recorded panics, backtraces, std's symboliser) is the
+            // harness's memory, not the campaign's; it also keeps the allocator's
+            // large-block monitor from capturing a backtrace while std holds its backtrace lock
+            let outer_tag = crate::alloc_count::thread_tag();
+            crate::alloc_count::set_thread_tag(0);
             let in_call = IN_CALL.try_with(|c| c.get()).unwrap_or(false);
             let live = !in_call && LIVE_MODE.load(Ordering::Relaxed);
             if in_call || live {
@@ -167,6 +175,7 @@ pub fn install_site_hook() {
                 }
             }
             prev(info);
+            crate::alloc_count::set_thread_tag(outer_tag);
         }));
     });
 }
@@ -836,6 +845,7 @@ pub fn run(args: &Args) -> i32 {
     report.assume("panic = unwinding out of a rustrtc call or a panic recorded in any task; Err/None results are accepted");
     report.assume("hang = > 2 s thread-CPU for one call on <= 64 KiB, reproduced 3/3 alone in a fresh process");
     report.assume("bloat = bytes allocated during one call > 512*len + 256 KiB (realloc growth counted once)");
+    report.assume("live bloat = campaign heap growth > 8 MiB + 64*sum(len), or a single block requested by rustrtc code > 256 KiB + 64*L + 2*H (L = longest input fed so far, H = live heap growth of the campaign at that moment: an accumulating container may double)");
     report.assume("harness built with overflow-checks=on and debug-assertions=on, like the repository's own cargo test");
     if let Some(p) = &args.replay {
         match load_replay(p) {
